@@ -86,6 +86,8 @@ def handleMatch (j : Json) : Json :=
       let want := canonBs (bsOfJson pl)
       gos.all (fun (_, r) => match r with | some rs => (rs.map canonBs).contains want | none => false)
     | none => true
+  -- C07: the call returned (a result or an error): it neither killed the process nor panicked
+  let totalOk := (getArr j "go").all (fun g => (getObj? g "crash").isNone && (getObj? g "panic").isNone)
   let feats := matchFeatures p f bs outs
   let nontrivial := feats.any (fun s => s == "var" || s == "arr" || s == "obj")
   Json.mkObj [
@@ -93,6 +95,7 @@ def handleMatch (j : Json) : Json :=
     ("sound", soundOk), ("det", detOk), ("modelDet", modelDet), ("planted", plantedOk),
     ("model", jstrs modelSet), ("go", jstrs goSet),
     ("feat", jstrs feats), ("nontrivial", nontrivial),
+    ("prop", boolsJson [("total", totalOk)]),
     ("key", canonStr (.arr [p, f, .obj bs]))]
 
 end Driver
